@@ -1,4 +1,4 @@
-From V Require Import Common.Base C13.KwSpec C13.Token C13.LexSpec C13.LexProofs C13.Toks C13.TokenProofs C13.RenderLex C13.Harness gen.KeywordsGen.
+From V Require Import Common.Base C13.KwSpec C13.Token C13.LexSpec C13.LexProofs C13.Toks C13.TokenProofs C13.RenderLex C13.ParseSpec C13.PrintParse C13.PrintParse2 C13.PrintNorm C13.Harness gen.KeywordsGen.
 From Coq Require Import String.
 (* non-vacuity / sanity: concrete values *)
 Example kw_count : (List.length gen_keywords = 36)%nat /\ (List.length gen_strict_reserved = 9)%nat /\ (List.length ecma_reserved_words = 38)%nat.
@@ -51,3 +51,18 @@ Proof.
 Qed.
 Example ex_esc_lex : lex (render true st0 ex_esc_chain) = Some (toks ex_esc_chain).
 Proof. apply RenderLex.render_lex_all; apply ex_esc_ok. Qed.
+
+(* tree level: a well-formed tree with a right-nested comma, "**" with a unary base, "??" next to "||" *)
+Definition ex_tree : expr :=
+  EBin BComma (EBin BAssign (EDot (EId (zs "a")) (zs "b")) (EBin BPow (EUn UNeg (EId (zs "c"))) (ENum (zs "2"))))
+              (EBin BComma (EBin BNullish (EBin BLogOr (EId (zs "d")) (EId (zs "e"))) (EUn UPostInc (EId (zs "f"))))
+                           (EUn UTypeof (ERe (zs "x") (zs "g")))).
+Example ex_tree_wf : wf ex_tree.
+Proof.
+  unfold ex_tree. simpl. unfold word_ok, word_shape, id_shape, num_shape, re_shape.
+  repeat split; try discriminate; try (left; repeat split; try discriminate; vm_compute; reflexivity); try (vm_compute; reflexivity); try (intro; reflexivity); try (intro; discriminate).
+Qed.
+Example ex_tree_print : print_expr true ex_tree = zs "a.b=(-c)**2,(d||e)??f++,typeof/x/g".
+Proof. vm_compute. reflexivity. Qed.
+Example ex_tree_parse : parse_text (print_expr true ex_tree) = Some (norm ex_tree) /\ norm ex_tree <> ex_tree.
+Proof. split; [vm_compute; reflexivity | vm_compute; discriminate]. Qed.
